@@ -14,6 +14,7 @@ import (
 	"google.golang.org/protobuf/proto"
 	"google.golang.org/protobuf/reflect/protoreflect"
 	"google.golang.org/protobuf/runtime/protoimpl"
+	"google.golang.org/protobuf/types/descriptorpb"
 	"google.golang.org/protobuf/verif/core"
 	"google.golang.org/protobuf/verif/gen"
 
@@ -31,7 +32,7 @@ import (
 func init() {
 	core.Register(&core.Check{
 		ID: "C29",
-		Rule: "cases: for every schema family linked in open, hybrid and opaque form (test3, testeditions, required, enums, lazy, textpbeditions, messageset under protolegacy): one logical content (PRNG, keyed by field number: boundary scalars, NaN, -0, strings, bytes, enums, nested messages, lists, maps, oneof members, extensions, unknown fields) materialised through (1) protoreflect Set on each flavour and on dynamicpb, (2) the generated Go API via reflect: exported struct fields by protobuf tag incl. oneof wrapper types (open, hybrid), SetX methods (hybrid, opaque), _builder structs + Build() (hybrid, opaque; statically referenced builder types); oracle: identical deterministic bytes across all flavours and routes, every flavour decodes every other's bytes to the same field-number-keyed snapshot, generated getters/HasX agree with reflection, JSON and text outputs equal after masking type names; repeated in the protoopaque build; distinct = distinct (family, content bytes); non-trivial = at least one populated field",
+		Rule: "cases: for every schema family linked in open, hybrid and opaque form (test3, testeditions, required, enums, lazy, textpbeditions, messageset under protolegacy): one logical content (PRNG, keyed by field number: boundary scalars, NaN, -0, strings, bytes, enums, nested messages, lists, maps, oneof members, extensions, unknown fields) materialised through (1) protoreflect Set on each flavour and on dynamicpb, (2) the generated Go API via reflect: exported struct fields by protobuf tag incl. oneof wrapper types (open, hybrid), SetX methods (hybrid, opaque), _builder structs + Build() (hybrid, opaque; statically referenced builder types); oracle: identical deterministic bytes across all flavours and routes, every flavour decodes every other's bytes to the same field-number-keyed snapshot, generated getters/HasX agree with reflection, JSON and text outputs equal after masking type names; and the concatenation of two consecutive contents' serialisations (one decode of the concatenation; decode of the first then Merge-decode of the second) leaves every flavour with the snapshot and deterministic bytes dynamicpb ends with, without panic (lazy fields stay undecoded between the two occurrences); repeated in the protoopaque build; distinct = distinct (family, content bytes); non-trivial = at least one populated field",
 		Assume: []string{"field-number-keyed snapshot (model/snapshot.go)", "reflect-based driver of the generated API in checks/c29.go (falls back to protoreflect Set, counted, when a Go name or type cannot be matched)"},
 		Batches: func(tier string) []core.Batch {
 			bs := stdBatches([]string{"base"}, 8)
@@ -40,7 +41,7 @@ func init() {
 			return bs
 		},
 		Gates: func(tier string) map[string]int64 {
-			return map[string]int64{"families": 30, "contents": 1500, "route:reflect": 5000, "route:struct": 1000, "route:setters": 1500, "route:builder": 200, "goapi_fields_set": 10000, "oneof_wrapper_set": 100, "cross_decodes": 10000, "json_text_compared": 1500, "getter_checks": 5000}
+			return map[string]int64{"families": 30, "contents": 1500, "route:reflect": 5000, "route:struct": 1000, "route:setters": 1500, "route:builder": 200, "goapi_fields_set": 10000, "oneof_wrapper_set": 100, "cross_decodes": 10000, "json_text_compared": 1500, "getter_checks": 5000, "concat_decodes": 3000, "families_with_lazy_fields": 6}
 		},
 		Run: runC29,
 	})
@@ -416,11 +417,15 @@ func runC29(c *core.Ctx, b core.Batch) {
 	fams := c29Families(b)
 	nb := map[string]int{"base": 8, "opaque": 4, "legacy": 2}[b.Cfg]
 	per := c.Scale(8, 120)
+	var prev []byte
 	for fi, fam := range fams {
 		if fi%nb != b.N {
 			continue
 		}
 		c.Count("families")
+		if hasLazyField(fam.opaque.Descriptor(), map[protoreflect.FullName]bool{}) {
+			c.Count("families_with_lazy_fields")
+		}
 		name := string(fam.open.Descriptor().FullName())
 		for kk := 0; kk < per; kk++ {
 			r := c.Rng(uint64(fi)<<24 | uint64(kk))
@@ -431,7 +436,17 @@ func runC29(c *core.Ctx, b core.Batch) {
 			content := gen.Dynamic(fam.open.Descriptor())
 			gen.Fill(r, content, fo)
 			c29Case(c, fam, name, content, kk)
+			// the same content arriving as two concatenated serialisations
+			// (protobuf defines that as a merge): every flavour must end
+			// with the content dynamicpb ends with
+			if cur, err := detBytes(content); err == nil {
+				if prev != nil {
+					c29Concat(c, fam, name, prev, cur)
+				}
+				prev = cur
+			}
 		}
+		prev = nil
 	}
 }
 
@@ -574,6 +589,86 @@ func c29Case(c *core.Ctx, fam c29Family, name string, content protoreflect.Messa
 			labels = append(labels, x.label)
 		}
 		c.Sample(map[string]any{"family": name, "content_wire": core.Hex(ref), "built_through": labels, "identical_deterministic_bytes": true, "goapi_fields_set": k.set, "fallbacks_to_reflection": k.fallback})
+	}
+}
+
+func hasLazyField(md protoreflect.MessageDescriptor, seen map[protoreflect.FullName]bool) bool {
+	if seen[md.FullName()] {
+		return false
+	}
+	seen[md.FullName()] = true
+	for i := 0; i < md.Fields().Len(); i++ {
+		fd := md.Fields().Get(i)
+		if fd.Message() == nil {
+			continue
+		}
+		if o, ok := fd.Options().(*descriptorpb.FieldOptions); ok && o.GetLazy() {
+			return true
+		}
+		if hasLazyField(fd.Message(), seen) {
+			return true
+		}
+	}
+	return false
+}
+
+// c29Concat feeds first||second (and a merge-decode of second into a message
+// already holding first) to every flavour and to dynamicpb.
+func c29Concat(c *core.Ctx, fam c29Family, name string, first, second []byte) {
+	c.Eval()
+	in := append(append([]byte{}, first...), second...)
+	c.Log("C29 concat family=%s in=%s split=%d", name, core.Hex(in), len(first))
+	uo := proto.UnmarshalOptions{AllowPartial: true}
+	ref := gen.Dynamic(fam.open.Descriptor())
+	if uo.Unmarshal(in, ref.Interface()) != nil {
+		return
+	}
+	want := snapOf(ref)
+	wantKey := snapKeyNoType(want)
+	wantBytes, werr := detBytes(ref)
+	for _, tgt := range []protoreflect.MessageType{fam.open, fam.hybrid, fam.opaque} {
+		fl := flavour(tgt.Descriptor())
+		for mode := 0; mode < 2; mode++ {
+			m := tgt.New()
+			detail := map[string]any{"family": name, "input": core.Hex(in), "split_at": len(first), "target": string(tgt.Descriptor().FullName()), "mode": []string{"one-decode-of-concatenation", "decode-then-merge-decode"}[mode]}
+			var err error
+			ok := c.NoPanic("flavours:concat-panic:"+fl, detail, func() {
+				if mode == 0 {
+					err = uo.Unmarshal(in, m.Interface())
+				} else {
+					if err = uo.Unmarshal(first, m.Interface()); err == nil {
+						mo := uo
+						mo.Merge = true
+						err = mo.Unmarshal(second, m.Interface())
+					}
+				}
+			})
+			if !ok {
+				continue
+			}
+			c.Count("concat_decodes")
+			if err != nil {
+				c.Violation("flavours:concat-decode-error:"+fl, detail)
+				continue
+			}
+			var got string
+			var enc []byte
+			var eerr error
+			if !c.NoPanic("flavours:concat-panic-after-decode:"+fl, detail, func() {
+				enc, eerr = detBytes(m)
+				got = snapKeyNoType(snapOf(m))
+			}) {
+				continue
+			}
+			if got != wantKey {
+				c.Violation("flavours:concat-content:"+fl+":"+c29DiffField(want, snapOf(m)), detail)
+				continue
+			}
+			if werr == nil && (eerr != nil || !bytes.Equal(enc, wantBytes)) {
+				detail["got"] = core.Hex(enc)
+				c.Violation("flavours:concat-deterministic-bytes:"+fl, detail)
+			}
+		}
 	}
 }
 
